@@ -191,8 +191,56 @@ def pruning_case(ctx, rid, kind, d, strategy, automorphism=False, rsmi=None, tag
     return diff
 
 
+SYNTH_PRUNE = [
+    ("[CH2:1]=[CH2:2].[BrH:3]>>[CH3:1][CH2:2][Br:3]", ["CC=C.Br", "C=CC.Br", "C=C.Br", "CC(C)=C.Br", "CC=CC.Br"]),
+    ("[CH2:1]=[CH2:2].[H:3][O:4][H:5]>>[CH2:1]([H:3])[CH2:2][O:4][H:5]", ["CC=C.O", "C=CC.O", "C=C.O"]),
+    ("[CH2:1]=[CH:2][CH:3]=[CH2:4].[CH2:5]=[CH2:6]>>[CH2:1]1[CH:2]=[CH:3][CH2:4][CH2:5][CH2:6]1",
+     ["C=CC=CC.C=CC", "CC(=C)C=C.C=CC(=O)OC", "C=CC=C.C=C"]),
+    ("[CH2:1]=[CH2:2].[CH2:3]=[CH2:4]>>[CH2:1]=[CH2:3].[CH2:2]=[CH2:4]", ["CC=C.C=CCC", "C=C.C=CC"]),
+    ("[CH3:1][C:2](=[O:3])[OH:4].[CH3:5][OH:6]>>[CH3:1][C:2](=[O:3])[O:6][CH3:5].[OH2:4]", ["CC(=O)O.OCCO", "OC(=O)CC(=O)O.CO"]),
+    ("[CH3:1][Cl:2].[NH3:3]>>[CH3:1][NH2:3].[ClH:2]", ["ClCCCl.N", "CCl.NCCN"]),
+]
+
+
+def pruning_pair(ctx, tpl_rsmi, sub, wid, automorphism=False):
+    """pruned vs unpruned for an explicit (template string, substrate) pair; loss-free on the unchanged tree."""
+    from synkit.IO.chem_converter import rsmi_to_its
+    flags = flags_for(R.hmode(tpl_rsmi))
+    if flags is None:
+        return
+    res = {}
+    for bypass in (False, True):
+        BYPASS[0] = bypass
+        try:
+            res[bypass] = run(sub, rsmi_to_its(tpl_rsmi), False, strategy="all", flags=flags, automorphism=automorphism)
+        finally:
+            BYPASS[0] = False
+    a, b = res[False], res[True]
+    ctx.count("pruning_differential_runs")
+    if "error" in a or "error" in b:
+        ctx.count("pruning_runs_with_exception")
+        return
+    if a["n_pruned"] < a["n_raw"]:
+        ctx.count("pruning_removed_matches")
+    if a["std"] != b["std"]:
+        lost, extra = sorted(b["std"] - a["std"]), sorted(a["std"] - b["std"])
+        ctx.violation("pruning-changes-results", {"template": tpl_rsmi, "substrate": sub, "automorphism": automorphism, "lost": lost[:3], "extra": extra[:3]},
+                      f"pruned result set differs from gluing every raw match: lost {len(lost)}, extra {len(extra)} (raw matches {a['n_raw']} -> {a['n_pruned']})",
+                      finding=KF_PRUNE if not extra else None, witness_id=wid)
+    ctx.case(("prune-synth", tpl_rsmi, sub, automorphism), nontrivial=a["n_raw"] >= 2,
+             sample={"space": "synthetic symmetric-site templates", "template": tpl_rsmi, "substrate": sub, "raw_matches": a["n_raw"], "kept": a["n_pruned"]}
+             if ctx.rng.random() < 0.05 else None)
+
+
 def pruning_differential(ctx, budget_frac=1.0):
     install()
+    k = 0
+    for ti, (tpl, subs) in enumerate(SYNTH_PRUNE):
+        for si, sub in enumerate(subs):
+            k += 1
+            if ctx.mine(k):
+                pruning_pair(ctx, tpl, sub, f"synth/{ti}/{si}", automorphism=False)
+                pruning_pair(ctx, tpl, sub, f"synth/{ti}/{si}", automorphism=True)
     cases = case_list(kinds=("rc", "its"), strategies=("all", "comp", "bt"))
     step = 9 if ctx.quick else 1
     for i, (rid, kind, d, s) in enumerate(cases):
@@ -209,5 +257,7 @@ def pruning_differential(ctx, budget_frac=1.0):
 
 def replay_pruning(ctx, w):
     install()
+    if "template" in w:
+        return pruning_pair(ctx, w["template"], w["substrate"], None, automorphism=bool(w.get("automorphism")))
     pruning_case(ctx, w["template_rid"], w["kind"], w["dir"], w["strategy"], automorphism=bool(w.get("automorphism")),
                  rsmi=w.get("rsmi"), tag="replay")
